@@ -2,8 +2,10 @@
 package c10
 
 import (
+	"bytes"
 	"fmt"
 	"os"
+	"reflect"
 	"sort"
 	"strings"
 	"sync"
@@ -53,6 +55,7 @@ func Eval(c Case) evid.Verdict {
 			return evid.Fail("harness", "build: %v", err)
 		}
 		defer w.Stop()
+		cfgBefore := DeepCopyConfig(w.Cfg)
 		cl := w.NewClient()
 		defer cl.Destroy()
 		var trace []string
@@ -226,6 +229,21 @@ func Eval(c Case) evid.Verdict {
 							before.UTC().Format("15:04:05.000"), after.UTC().Format("15:04:05.000"), is.Start.Format("15:04:05"), is.End.Format("15:04:05"), ctx())
 					}
 				}
+				if !fromCache {
+					// the call made the KDC issue a ticket for this service: a ticket that had already ended before the call
+					// began must not be handed back in its place
+					var latest *kdc.Issued
+					for _, x := range w.IssuedAll() {
+						x := x
+						if x.SName == spn && (latest == nil || x.At.After(latest.At)) {
+							latest = &x
+						}
+					}
+					if latest != nil && !bytes.Equal(latest.Ticket, is.Ticket) && is.End.Before(before) && latest.End.After(after) {
+						return evid.Fail("returned-superseded-ticket", "%s(%s) made the KDC issue a ticket valid until %s but returned the earlier one, which had ended at %s, before the call began (%s)%s", op.K, spn,
+							latest.End.Format("15:04:05"), is.End.Format("15:04:05"), before.UTC().Format("15:04:05.000"), ctx())
+					}
+				}
 			case "destroy":
 				cl.Destroy()
 				destroyed = true
@@ -234,6 +252,10 @@ func Eval(c Case) evid.Verdict {
 		}
 		if os.Getenv("VERIF_TRACE") != "" {
 			fmt.Println(ctx())
+		}
+		// the caller's configuration is read, never written
+		if !reflect.DeepEqual(cfgBefore, w.Cfg) {
+			return evid.Fail("config-modified", "the client's Config differs after the history:\n before %+v\n after  %+v%s", cfgBefore.LibDefaults, w.Cfg.LibDefaults, ctx())
 		}
 		// I4: everything the KDCs received
 		for _, p := range w.RequestProblems() {
@@ -295,6 +317,7 @@ func drawSpec(t *rapid.T, timed bool) Spec {
 		s.Salted = false
 	}
 	if timed {
+		s.KDCGrace = rapid.Bool().Draw(t, "kdcgrace")
 		life := func(lbl string) LifeSpec {
 			switch rapid.IntRange(0, 5).Draw(t, lbl) {
 			case 0:
@@ -466,7 +489,25 @@ func TestProp(t *testing.T) {
 		return cases
 	}
 	run("history", collect("history", r.N(400, 4000), false), 48)
-	run("timed", collect("timed", r.N(110, 1500), true), 55)
+	timedCases := collect("timed", r.N(110, 1500), true)
+	// enumerated timed histories: what a ticket's end does to the next request for the same service, for every kind of
+	// lifetime the KDC may grant (short, short and renewable, expired on issue, not yet valid) with and without a KDC
+	// that still honours a ticket shortly after its end
+	lives := []LifeSpec{{StartMs: 0, EndMs: 2300}, {StartMs: 0, EndMs: 2300, RenewMs: 60000}, {StartMs: -5000, EndMs: -1000}, {StartMs: 2500, EndMs: 60000}}
+	for li, l := range lives {
+		for gi, grace := range []bool{false, true} {
+			for ri, renew := range []string{"", "10m"} {
+				k := li*4 + gi*2 + ri
+				if r.Quick() && l.RenewMs == 0 && (k+int(r.Seed()))%2 == 1 {
+					continue
+				}
+				timedCases = append(timedCases, Case{Spec: Spec{Seed: r.Seed()*577 + uint64(k), Cred: []string{"keytab", "password"}[k%2], ETypes: []int32{ref.ETypes[k%6]}, Preauth: []string{"none", "required"}[(k/2)%2],
+					Via: "referral", KDCs: 1 + k%2, RenewLife: renew, KDCGrace: grace, SvcLives: []LifeSpec{l, {StartMs: 0, EndMs: 3600000}, {StartMs: 0, EndMs: 3600000}}},
+					Ops: []Op{{K: "login"}, {K: "ticket", SPN: 0}, {K: "cached", SPN: 0}, {K: "wait", Ms: 2600}, {K: "ticket", SPN: 0}, {K: "cached", SPN: 0}, {K: "ticket", SPN: 0}}})
+			}
+		}
+	}
+	run("timed", timedCases, 55)
 	// enumeration: every hop count x via x pre-auth policy x credential kind with a fixed probing history
 	var enum []Case
 	for hops := 0; hops <= 8; hops++ {
